@@ -113,15 +113,17 @@ def impl(case):
         out["nf"] = cfglib.extract_cfg(g.to_normal_form())
     if op == "ll1_tree":
         out["ll1"] = bool(LLOneParser(g).is_llone_parsable())
+    ll1_parser = LLOneParser(g)              # one parser object serves all the words of the case
+    rd_parser = RecursiveDecentParser(g)
     for w in _words(case):
         word = [Terminal(a) for a in w]
         try:
             if op == "cnf_tree":
                 t = g.get_cnf_parse_tree(word)
             elif op == "ll1_tree":
-                t = LLOneParser(g).get_llone_parse_tree(word)
+                t = ll1_parser.get_llone_parse_tree(word)
             else:
-                t = RecursiveDecentParser(g).get_parse_tree(word, left=case.get("left", True))
+                t = rd_parser.get_parse_tree(word, left=case.get("left", True))
             res.append({"tree": _tree(t), "lm": _forms(t.get_leftmost_derivation()), "rm": _forms(t.get_rightmost_derivation())})
         except DerivationDoesNotExist:
             res.append({"refused": "DerivationDoesNotExist"})
